@@ -271,21 +271,24 @@ Theorem C11_binary_colvar_truncated_is_error : forall (cv_ok : list byte -> bool
 Proof. exact cv_cut. Qed.
 Print Assumptions C11_binary_colvar_truncated_is_error.
 
-(* colvarbias::read_state_template_<memory_stream> on an object with a list of hills (metadynamics): the
-   object is <keyword> "configuration" <conf> hill*; the data ends somewhere inside it (p is a proper prefix
-   of the object, nothing follows).  Unless p stops exactly between two hills (or before the first, or
-   after the last), the read is an error: raise_error_rewind for the header, hill_stream_error for a hill --
-   including a cut inside the 12-byte "hill" keyword, where the string read fails and unread_bytes(is,
-   start_pos), measured from where the record starts, is what tells the cut from the end of the list. *)
+(* colvarbias::read_state_template_<memory_stream> on a bias object: <keyword> "configuration" <conf>, then the
+   fixed data of the bias type -- keys and raw arrays, ALL mandatory (bb_fields: ABF "samples" n*8 "gradient"
+   n*8 and, with the CZAR estimator, "z_samples" n*8 "z_gradient" n*8; histogram "grid" n*8; none for
+   restraints) -- then, for metadynamics, hill*.  The data end somewhere inside the object (p is a proper prefix
+   of it, nothing follows).  Unless p stops exactly between two hills (or before the first, or after the last),
+   the read is an error: raise_error_rewind for the header and for any key or grid value of the fixed data
+   that cannot be read, hill_stream_error for a hill (incl. a cut inside the 12-byte "hill" keyword, told from
+   the end of the list by unread_bytes(is, start_pos)).  For a bias without hills (ABF, histogram, restraints)
+   there is no exception: EVERY proper prefix of the written block is rejected. *)
 Theorem C11_binary_bias_truncated_is_error :
   forall (matches : bbias -> list byte -> option bool) (params_ok : bbias -> list byte -> bool)
-         (b : bbias) (kwd conf : list byte) (hs : list (list item)) (b1 p q : list byte) (mx : N) (o : bool),
-  bb_kind b = 1%nat -> item_ok (IStr kwd) -> item_ok (IStr conf) ->
+         (b : bbias) (kwd conf : list byte) (its : list item) (hs : list (list item)) (b1 p q : list byte) (mx : N) (o : bool),
+  (bb_kind b <> 1%nat -> hs = []) -> item_ok (IStr kwd) -> item_ok (IStr conf) ->
   bytes_eqb kwd (bb_kw b) || bytes_eqb kwd (bb_type b) = true ->
   matches b conf = Some true -> params_ok b conf = true ->
-  Forall (hill_ok (bb_nvar b)) hs ->
-  enc_header kwd conf ++ enc_hills hs = p ++ q -> q <> [] -> blen (b1 ++ p) < W64 ->
-  (forall k, p <> enc_header kwd conf ++ enc_hills (firstn k hs)) ->
+  fields_match (bb_fields b) its -> Forall (hill_ok (bb_nvar b)) hs ->
+  enc_obj kwd conf its hs = p ++ q -> q <> [] -> blen (b1 ++ p) < W64 ->
+  (forall k, p <> enc_header kwd conf ++ enc_all its ++ enc_hills (firstn k hs)) ->
   bias_read matches params_ok b (rst (b1 ++ p) mx false false false (blen b1) o) = BErr \/
   exists s, bias_read matches params_ok b (rst (b1 ++ p) mx false false false (blen b1) o) = BOk s true.
 Proof. exact bias_cut. Qed.
@@ -298,19 +301,20 @@ Print Assumptions C11_binary_bias_truncated_is_error.
    these, and they are accepted: *)
 Theorem C11_binary_hill_boundary_accepted :
   forall (matches : bbias -> list byte -> option bool) (params_ok : bbias -> list byte -> bool)
-         (b : bbias) (kwd conf : list byte) (hs : list (list item)) (k : nat) (b1 : list byte) (mx : N) (o : bool),
+         (b : bbias) (kwd conf : list byte) (its : list item) (hs : list (list item)) (k : nat) (b1 : list byte) (mx : N) (o : bool),
   bb_kind b = 1%nat -> item_ok (IStr kwd) -> item_ok (IStr conf) ->
   bytes_eqb kwd (bb_kw b) || bytes_eqb kwd (bb_type b) = true ->
   matches b conf = Some true -> params_ok b conf = true ->
-  Forall (hill_ok (bb_nvar b)) hs -> (k <= length hs)%nat ->
-  blen (b1 ++ enc_header kwd conf ++ enc_hills (firstn k hs)) < W64 ->
+  fields_match (bb_fields b) its -> Forall (hill_ok (bb_nvar b)) hs -> (k <= length hs)%nat ->
+  blen (b1 ++ enc_header kwd conf ++ enc_all its ++ enc_hills (firstn k hs)) < W64 ->
   exists s, bias_read matches params_ok b
-              (rst (b1 ++ enc_header kwd conf ++ enc_hills (firstn k hs)) mx false false false (blen b1) o) = BOk s false.
+              (rst (b1 ++ enc_header kwd conf ++ enc_all its ++ enc_hills (firstn k hs)) mx false false false (blen b1) o) = BOk s false.
 Proof. exact bias_hill_boundary. Qed.
 Print Assumptions C11_binary_hill_boundary_accepted.
 
-(* Whole binary states: magic number, global block, the variables' records, the bias objects without data and
-   possibly a last bias object with a list of hills (the order of the module's lists puts metadynamics last).
+(* Whole binary states: magic number, global block, the variables' records, the bias objects without hills (with
+   any fixed data: ABF with or without CZAR grids, histogram, restraints -- last or not) and possibly a last bias
+   object with a list of hills (the order of the module's lists puts metadynamics last).
    The data end anywhere after the global block and before the end of the state (p is a proper prefix of what
    follows the global block): the load reports an error -- except when the data end exactly between two hills
    of that last bias (C11_binary_hill_boundary_accepted: the format cannot tell).  This composes the record
@@ -324,7 +328,7 @@ Theorem C11_binary_state_cut_is_error :
   concat (map cv_enc datas) ++ concat (map benc xs) ++ match last with Some x => benc x | None => [] end = p ++ q ->
   q <> [] -> blen (magic ++ genc gconf ++ p) < W64 ->
   (forall x k, last = Some x ->
-     p <> concat (map cv_enc datas) ++ concat (map benc xs) ++ enc_header (o_kwd x) (o_conf x) ++ enc_hills (firstn k (o_hs x))) ->
+     p <> concat (map cv_enc datas) ++ concat (map benc xs) ++ enc_header (o_kwd x) (o_conf x) ++ enc_all (o_its x) ++ enc_hills (firstn k (o_hs x))) ->
   load_bin cv_ok matches params_ok (length datas)
            (map o_b xs ++ match last with Some x => [o_b x] | None => [] end) (magic ++ genc gconf ++ p) = true.
 Proof. exact binary_state_cut. Qed.
@@ -427,7 +431,7 @@ Proof. vm_compute. repeat split; reflexivity. Qed.
 Definition ex_hill (it : N) : list item :=
   [IStr kw_hill; IStr kw_step; IObj (le64 it); IStr kw_weight; IObj (le64 1); IStr kw_centers; IObj (le64 2);
    IStr kw_widths; IObj (le64 3)].
-Definition ex_bb : bbias := mkBB [109;101;116;97] [109;101;116;97] 1 1.
+Definition ex_bb : bbias := mkBB [109;101;116;97] [109;101;116;97] 1 1 [].
 Definition ex_obj : list byte := enc_header [109;101;116;97] [110;32;109] ++ enc_hills [ex_hill 1; ex_hill 2].
 Example C11_example_binary_cut :
   Forall (hill_ok 1) [ex_hill 1; ex_hill 2] /\
@@ -451,3 +455,28 @@ Example C11_example_bias_writer :
   rs = [Done true; Done false; Done true] /\ m_reg m = NotOpen /\
   m_fs m = mkFS (Some (mkF 3 100 100)) (Some (mkF 1 100 100)) None.
 Proof. vm_compute. repeat split; reflexivity. Qed.
+
+(* an eABF object "abf" <conf> samples 2x8 gradient 2x8 z_samples 2x8 z_gradient 2x8 that is the last object of the data:
+   cut 9 bytes into the "z_samples" key (inside the window of the seeded change C11_4), and cut right after the
+   gradient grid: both are errors *)
+Definition ex_abf_fields : list field :=
+  [FKey [115;97;109;112;108;101;115]; FObj 8; FObj 8; FKey [103;114;97;100;105;101;110;116]; FObj 8; FObj 8;
+   FKey [122;95;115;97;109;112;108;101;115]; FObj 8; FObj 8; FKey [122;95;103;114;97;100;105;101;110;116]; FObj 8; FObj 8].
+Definition ex_abf_items : list item :=
+  [IStr [115;97;109;112;108;101;115]; IObj (le64 0); IObj (le64 4); IStr [103;114;97;100;105;101;110;116]; IObj (le64 0); IObj (le64 0);
+   IStr [122;95;115;97;109;112;108;101;115]; IObj (le64 0); IObj (le64 4); IStr [122;95;103;114;97;100;105;101;110;116]; IObj (le64 0); IObj (le64 0)].
+Definition ex_abf : bbias := mkBB [97;98;102] [97;98;102] 0 1 ex_abf_fields.
+Example C11_example_abf_czar_cut :
+  fields_match ex_abf_fields ex_abf_items /\
+  (let pre := enc_header [97;98;102] [110;32;97] ++ enc_all (firstn 6 ex_abf_items) in
+   bias_read (fun _ _ => Some true) (fun _ _ => true) ex_abf (input_stream pre) = BErr /\
+   bias_read (fun _ _ => Some true) (fun _ _ => true) ex_abf
+             (input_stream (firstn (length pre + 9) (enc_obj [97;98;102] [110;32;97] ex_abf_items []))) = BErr) /\
+  (exists s, bias_read (fun _ _ => Some true) (fun _ _ => true) ex_abf (input_stream (enc_obj [97;98;102] [110;32;97] ex_abf_items [])) = BOk s false).
+Proof.
+  split; [|split; [split|]].
+  - repeat constructor; cbn [field_ok shape_of shape_of_field item_ok]; try reflexivity; try (vm_compute; reflexivity).
+  - vm_compute. reflexivity.
+  - vm_compute. reflexivity.
+  - vm_compute. eexists. reflexivity.
+Qed.
